@@ -277,6 +277,15 @@ def body_eq(ch, ctx):
     if same:
         ctx.check(hash(f) == hash(g), "equal-features-hash-differently", None, a=str(f))
         ctx.check(len({f, g}) == 1, "equal-features-not-deduplicated-in-set", None, a=str(f))
+        # the same line as it comes from elsewhere: parsed from its own print (no id), and carrying a database key
+        p = feature_from_line(str(g))
+        k = mk(specs[j])
+        k.id = "key-%d" % j
+        k.file_order = 7
+        for other, how in ((p, "parsed"), (k, "keyed")):
+            if str(other) == str(f):
+                ctx.check(other == f and hash(other) == hash(f) and len({other, f}) == 1, "equal-features-hash-differently",
+                          dict(other=how), a=str(f), b=str(other), hashes=[hash(f), hash(other)])
     # a feature that was hashed / compared and is then edited into the other one
     h = mk(specs[i])
     hash(h), h == g, {h: 1}
